@@ -268,6 +268,7 @@ func makeFuncClosure(fn *ssa.Function) (*ssa.Function, *ssa.Call) {
 			}
 			if mc, ok := cl.Call.Args[1].(*ssa.MakeClosure); ok && (out == nil || g == fn) {
 				out, _ = mc.Fn.(*ssa.Function)
+				out = BoundTarget(out) // a method value (state.call) stands for the method
 				call = cl
 			}
 		})
@@ -308,6 +309,12 @@ func c18Constructors(c *Ctx) {
 			}
 			if len(root.Params) == 3 && DerivesOnly(cl.Call.Value, false, func(v ssa.Value) bool { return v == ssa.Value(root.Params[2]) }) {
 				return true
+			}
+			// the getter kept in a field of the state object the produced function is a method of
+			for _, owner := range []*ssa.Function{pnf, fnf} {
+				if root != owner && len(owner.Params) == 3 && DerivesOnly(cl.Call.Value, false, func(v ssa.Value) bool { return v == ssa.Value(owner.Params[2]) }) {
+					return true
+				}
 			}
 			// the same getter received as an explicit parameter by a helper: a parameter of type func() ([]reflect.Value, error)
 			if pr, isP := cl.Call.Value.(*ssa.Parameter); isP {
